@@ -19,7 +19,7 @@ def unit(a):
     return np.array([math.sin(a), math.cos(a)])        # (x, z); angle from +z
 
 
-def trace(src, phi, walls, vels, last_len=None, stop=None):
+def trace(src, phi, walls, vels, last_len=None, stop=None, sin_limit=0.999):
     """walls: [(point_on_wall (x,z), normal_angle, 'T'|'R'), ...]; vels[k]: velocity of leg k.
     Returns (points, unit directions per leg) or None if the ray misses / is totally reflected."""
     p = np.asarray(src, float)
@@ -38,7 +38,7 @@ def trace(src, phi, walls, vels, last_len=None, stop=None):
         pts.append(p)
         dirs.append(d)
         sin_out = float(np.dot(d, t)) * vels[k + 1] / vels[k]
-        if abs(sin_out) >= 0.999:
+        if abs(sin_out) >= sin_limit:
             return None
         cos_out = math.sqrt(1 - sin_out ** 2)
         side = 1.0 if dn > 0 else -1.0
@@ -156,7 +156,34 @@ def random_geometry(rng, nlegs=None, max_tilt_deg=20.0, max_inc_deg=75.0):
                 c_f=c_f, c_l=c_l, c_t=c_t, rho_f=float(rng.uniform(800, 1300)), rho_s=float(rng.uniform(2000, 9000)))
 
 
-def arim_path(geom, arim, physical=False, attenuation=None, decoy=None):
+def grazing_geometry(rng):
+    """immersion ray whose first leg in the block is within 2 degrees of grazing (88.0 .. 89.6 degrees from the normal of
+    a flat front wall), optionally reflected once at a flat back wall (with or without mode conversion)."""
+    nlegs = int(rng.integers(2, 4))
+    c_f = float(rng.uniform(900, 2000))
+    c_l = float(rng.uniform(3000, 7000))
+    c_t = float(c_l * rng.uniform(0.40, 0.68))
+    modes = ["L"] + [str(rng.choice(["L", "T"])) for _ in range(nlegs - 1)]
+    vels = [c_f] + [c_l if m == "L" else c_t for m in modes[1:]]
+    depth = float(rng.uniform(1e-3, 4e-3))
+    walls = [((0.0, 0.0), 0.0, "T")] + ([((0.0, depth), 0.0, "R")] if nlegs == 3 else [])
+    th_out = math.radians(float(rng.uniform(88.0, 89.6)))
+    if vels[0] >= 0.98 * vels[1]:
+        return None
+    phi = math.asin(vels[0] / vels[1] * math.sin(th_out)) * float(rng.choice([-1.0, 1.0]))
+    src = (float(rng.uniform(-5e-3, 5e-3)), -float(rng.uniform(5e-3, 40e-3)))
+    last_len = float(rng.uniform(5e-3, 30e-3))
+    r = trace(src, phi, walls, vels, last_len=last_len, sin_limit=0.9999999)
+    if r is None:
+        return None
+    pts, dirs = r
+    legs = [float(np.linalg.norm(pts[k + 1] - pts[k])) for k in range(nlegs)]
+    return dict(src=src, phi=phi, walls=walls, vels=vels, last_len=last_len, pts=pts, dirs=dirs,
+                legs=legs, inc=incidence_angles(dirs, walls), out=out_angles(dirs, walls), nlegs=nlegs, modes=modes, immersion=True,
+                c_f=c_f, c_l=c_l, c_t=c_t, rho_f=float(rng.uniform(800, 1300)), rho_s=float(rng.uniform(2000, 9000)))
+
+
+def arim_path(geom, arim, physical=False, attenuation=None, decoy=None, rigid=None, spin=None):
     """One-point Interfaces, Path and Rays for the traced ray (real arim objects).
     physical=True (immersion geometries only): couplant/block Materials, L/T modes and
     interface kinds / transmission-reflection flags as block_in_immersion builds them, so that
@@ -176,6 +203,10 @@ def arim_path(geom, arim, physical=False, attenuation=None, decoy=None):
         else:
             points = g.Points(np.array([[p[0], 0.0, p[1]]]))
         basis = g.default_orientations(points)
+        if spin is not None:
+            # the local frame spun about its own normal by spin[i]: the tangent vectors are arbitrary, so the legs are no longer
+            # in the local plane Oxz (polar angles and lengths are unchanged)
+            basis = basis.rotate(g.rotation_matrix_z(float(spin[i])))
         kwargs = {}
         if 0 < i < npts - 1:
             alpha = walls[i - 1][1]
@@ -187,6 +218,11 @@ def arim_path(geom, arim, physical=False, attenuation=None, decoy=None):
             kwargs["are_normals_on_out_rays_side"] = True
         else:
             kwargs["are_normals_on_inc_rays_side"] = True
+        if rigid is not None:
+            # the whole set-up (points and local frames) moved by one rigid rotation about O: every leg length and every
+            # angle to a local normal is unchanged, but the rays leave the plane y = 0
+            points = points.rotate(np.asarray(rigid, float))
+            basis = basis.rotate(np.asarray(rigid, float))
         if physical and 0 < i < npts - 1:
             assert geom["immersion"]
             if walls[i - 1][2] == "T":
